@@ -364,9 +364,15 @@ Inductive vcase :=
 | CAnyBytes (dst : N) (d : bytes) (ok1 ok2 : bool) (o : pbval)
 | CDotRt (msgs : list bspec) (stream : bspec) (panicked : bool) (got : list bspec) (clean : bool)
 | CDotRecv (s : bytes) (got : list bytes) (clean : bool)
-| CTrimNA (n s : name) (ok : bool) (pre : name).
+| CTrimNA (n s : name) (ok : bool) (pre : name)
+(* a batch: k calls of one encoder in a row (or from two concurrent callers) whose results the caller all keeps, then k
+   calls of the decoder; each item is the single case of that encoder built from what the caller HOLDS when the last
+   call has returned.  The model's encoders and decoders are pure functions of (input, randomness), so the model's
+   batch result is the list of its single results (ModelSeq.enc_each / dec_each, the C15_seq theorems): the batch
+   agrees with the model iff every held item does. *)
+| CBatch (items : list vcase).
 
-Definition chk (c : vcase) : bool :=
+Definition chk1 (c : vcase) : bool :=
   match c with
   | CFmt op d o => chk_fmt (op, d, o)
   | CNameRt n o => name_rt_eqb (model_name_rt n) o
@@ -390,4 +396,11 @@ Definition chk (c : vcase) : bool :=
   (* labels with non-ASCII bytes: bytes.ToLower is UTF-8 aware there; if the ASCII model matches, Go matches with the
      same prefix; if it does not, Go may still match (e.g. two invalid bytes both become U+FFFD): unconstrained *)
   | CTrimNA n s ok pre => match trim_suffix n s with Some p => ok && name_eqb pre p | None => true end
+  | CBatch _ => false      (* batches do not nest *)
+  end.
+
+Definition chk (c : vcase) : bool :=
+  match c with
+  | CBatch items => forallb chk1 items
+  | _ => chk1 c
   end.
